@@ -754,6 +754,11 @@ func checkC05Server(p *Prog, r *Report, rSrc, rPins, rPort *Rule) {
 		if 0 == len(sts) {
 			rPins.Bad("TemplateParams.PubkeyFP", token.NoPos, "PubkeyFP is never set")
 		}
+	} else {
+		/* The template's {{.PubkeyFP}} is looked up in something other than
+		a field written once from the listener (a map, say, which other
+		entries — the request's own parameters — can overwrite). */
+		rPins.Bad("TemplateParams.PubkeyFP", token.NoPos, "the script's pin is not a PubkeyFP field of TemplateParams: what the template prints after sha256// can be something other than the listener's fingerprint")
 	}
 	/* http.Server.Serve(s.l). */
 	ns := 0
